@@ -59,7 +59,8 @@ def chunks(tier, seed):
 
 
 def floors(tier):
-    return {"monitors": {"getInsertionIndex.keeps_sorted": 1000, "model.ids": 5000, "source.unchanged": 5000},
+    return {"monitors": {"getInsertionIndex.keeps_sorted": 1000, "model.ids": 5000, "source.unchanged": 5000,
+                         "span.given_as_a_track": 1500},
             "classes": {"op:" + o: 20 for o in set(OPS)} | {"size:0": 5, "size:1": 10, "size:2": 10, "size:4": 10,
                                                         "pattern:duplicates": 50, "pattern:all_equal": 20,
                                                         "pattern:reversed": 20,
@@ -420,6 +421,25 @@ def run_case(case, ctx):
                     break
                 if not J.check_source(tr, snap, {"tini": a, "tfin": b}):
                     break
+                if (a + 3 * b + n) % 4 == 0:
+                    # the span given as ANOTHER TRACK (documented special case): from its first to its last
+                    # observation's instant, whichever of the two is the earlier (the other track may be in reverse
+                    # or in no particular order -- reversed bounds designate the same span)
+                    mids = [lo + (hi - lo) * k // 3 for k in (2, 1)] if (a + b) % 3 == 0 else []
+                    other = build([a] + mids + [b], start_id=500, with_second_feature=False)
+                    snap_o = snapshot(other)
+                    res = M.call(tr.extractSpanTime, other)
+                    ctx.monitor("span.given_as_a_track")
+                    if a > b:
+                        ctx.count("span_given_as_a_track_in_reverse_order")
+                    if not J.check_result(res, exp, tid, {"span_track_first": a, "span_track_last": b}):
+                        break
+                    if not J.check_source(tr, snap, {"span_track_first": a, "span_track_last": b}):
+                        break
+                    if snapshot(other) != snap_o:
+                        J.fail("the track given as a span was modified by extractSpanTime",
+                               args={"span_track_first": a, "span_track_last": b})
+                        break
             if J.problem:
                 break
 
